@@ -22,10 +22,15 @@ RULE = ("Histories as generated operation lists over a pool of shared objects (2
 TECHNIQUE = "model-based testing of histories: Hypothesis-generated operation sequences on shared objects against a model of 'freshly constructed equal objects', plus array-layout metamorphic relation and bitwise caller-array invariant"
 LEVEL_TEXT = ("Generated histories of constructions, attribute updates, evaluations and computations on shared objects are replayed "
               "against fresh equal objects; caller arrays in five memory layouts are snapshotted before and after every call.")
-LEVEL_NOTE = "Fresh-object replay is the model; comparisons 1e-10 (exact for pure functions)."
+LEVEL_NOTE = "Fresh-object replay is the model; pure functions are compared exactly (1e-12), separate runs of truncating computations within the truncation tolerance 4.1e-6 (they are not bit-reproducible, see RUN_TO_RUN_TOL)."
 ASSUMPTIONS = ["public parameters are the constructor arguments exposed as attributes (temperature, alpha, zeta, cutoff, cutoff_type, j_function)"]
 
 LAYOUTS = ["C", "F", "strided", "readonly", "T-of-T"]
+# Two runs of a truncating (TEMPO-type) computation on bit-identical inputs are NOT bit-identical: the tensor-network
+# back-end is only reproducible to rounding, and a singular value at the relative truncation threshold can flip
+# (observed: the same Tempo call toggling between two results 5e-9 apart at epsrel 1e-8, within one process).
+# Every comparison of two separate computations therefore uses the truncation tolerance 100 (N+1) epsrel + 1e-7.
+RUN_TO_RUN_TOL = 100.0 * 4 * 1e-8 + 1e-7
 ATTRS_PL = ["temperature", "alpha", "zeta", "cutoff", "cutoff_type"]
 ATTRS_CU = ["temperature", "cutoff", "cutoff_type", "j_function"]
 VALUES = {"temperature": [0.0, 0.02, 0.5, 2.0], "alpha": [0.05, 0.2, 0.4], "zeta": [1.0, 2.0, 3.0], "cutoff": [1.0, 3.0, 5.0],
@@ -278,7 +283,7 @@ def run_case(case):
             if op["kind"] != "tensors":
                 fresh_pt = _make_pt(_fresh(p_snap), rot)
                 want = _use_pt(op["kind"], fresh_pt, {k: np.ascontiguousarray(np.array(v)) for k, v in src.items()})
-                if got.shape != want.shape or not np.abs(got - want).max() <= 1e-9 * max(1.0, float(np.abs(want).max())):
+                if got.shape != want.shape or not np.abs(got - want).max() <= RUN_TO_RUN_TOL * max(1.0, float(np.abs(want).max())):
                     out.fail(f"pooled-pt-differs-from-fresh:{op['kind']}",
                              f"op {i}: deviation {float(np.abs(got - want).max()) if got.shape == want.shape else float('nan'):.3e}")
                     return out
@@ -316,7 +321,7 @@ def run_case(case):
             fresh_arrays = {k: np.ascontiguousarray(np.array(v)) for k, v in src.items()}
             want = _compute(op["kind"], _fresh(p_used), None, fresh_arrays)
             used[c] = True
-            if got.shape != want.shape or not np.abs(got - want).max() <= 1e-10 * max(1.0, float(np.abs(want).max())):
+            if got.shape != want.shape or not np.abs(got - want).max() <= RUN_TO_RUN_TOL * max(1.0, float(np.abs(want).max())):
                 dev = float(np.abs(got - want).max()) if got.shape == want.shape else float("nan")
                 out.fail(f"differs-from-fresh-objects:{op['kind']}" + (":bath" if b is not None else ""),
                          f"op {i}: deviation {dev:.3e} from the same computation with freshly constructed equal objects")
